@@ -541,6 +541,11 @@ func batch(p Prop, seed uint64, tier string, count int, budget float64, workers 
 		choices := DecodeChoices(v.Choices)
 		res := p.Run(sc, sim.ReplayChoices(choices), true)
 		ids := Classify(known, res)
+		if res.Violation != "" && ids == nil && v.Known == nil && res.Violation != v.Class {
+			// both runs violate, with different symptoms (e.g. the code under test
+			// read memory out of bounds): report what this process observed
+			v.Class = res.Violation
+		}
 		if res.Violation != v.Class || strings.Join(ids, "+") != strings.Join(v.Known, "+") {
 			fmt.Fprintf(os.Stderr, "INFRASTRUCTURE: run %d (seed %d) reported %q %v in the batch but %q %v when re-run in the parent process: the run is not a pure function of its decisions\n", v.RunIndex, v.Seed, v.Class, v.Known, res.Violation, ids)
 			return 2
